@@ -33,6 +33,12 @@ Trace == ndJsonDeserialize(TraceFile)
 \* ---- the relations --------------------------------------------------------
 OrderIndependent(e) == \A i \in 2..8 : PEq(e.perm[1], e.perm[i])
 UnitLength(e) == e.unit
+\* n2 = squared length of the result; n2lo, n2hi = 1 -+ 5 dblEpsilon (normalised points are
+\* documented to be within 2 dblEpsilon of unit length: 4 on the square, 1 for computing it)
+UnitTight(e) == FBetween(e.n2lo, e.n2, e.n2hi)
+\* pa, pb = |sin| of the angle between the result and the EXACT plane of each edge (exact
+\* cross/dot products); ptol = intersectionError: the exact intersection lies in both planes
+OnBothPlanes(e) == FLeq(e.pa, e.ptol) /\ FLeq(e.pb, e.ptol)
 \* X lies on both edges, edges are shorter than 180 degrees => X.(a0+a1) >= 0 up to the error of X
 Hemisphere(e) == FLeq(e.ha, e.da) /\ FLeq(e.hb, e.db)
 OnBothEdges(e) == e.eok => (FLeq(e.ea, e.etol) /\ FLeq(e.eb, e.etol))
@@ -49,6 +55,8 @@ Violated(e) ==
     ELSE
       (IF OrderIndependent(e) THEN {} ELSE {"order"})
       \cup (IF UnitLength(e) THEN {} ELSE {"unit"})
+      \cup (IF UnitTight(e) THEN {} ELSE {"unit-tight"})
+      \cup (IF e.ev = "X" /\ ~OnBothPlanes(e) THEN {"on-planes"} ELSE {})
       \cup (IF Hemisphere(e) THEN {} ELSE {"hemisphere"})
       \cup (IF e.ev = "X" /\ ~OnBothEdges(e) THEN {"on-edge"} ELSE {})
       \cup (IF e.ev = "X" /\ ~StableMeetsBound(e) THEN {"stable-vs-exact"} ELSE {})
